@@ -13,6 +13,7 @@ Reading guide:
 import Flax.Proofs.BridgeExample
 import Flax.Proofs.BridgeHier
 import Flax.Proofs.BridgeRng
+import Flax.Proofs.BridgeAxis
 
 namespace Flax.C18
 open Flax.Bridge
@@ -625,5 +626,39 @@ theorem tonnx_keys_never_reused (r : Rngs) (hn : (r.streams.map Prod.fst).Nodup)
 
 example : (⟨[("params", 0), ("dropout", 3)], 7⟩ : Rngs).after 2 |>.draw.1
     = [("params", ⟨"params", 2, 7⟩), ("dropout", ⟨"dropout", 5, 7⟩)] := by decide
+
+/-! ## NNXMeta boxes under Linen's lifted transforms -/
+
+/-- **`NNXMeta.add_axis` keeps the `sharding` annotation aligned with the stacked value**: for every
+annotation — the empty tuple of a rank-0 Variable included — and every index a transform can pass
+(`-(rank+1) ≤ index ≤ rank`), the new tuple has exactly one more entry, the axis name sits at the new
+axis, and `remove_axis` with the same arguments gives the old tuple back. -/
+theorem nnxmeta_axis_aligned (ns : List (Option String)) (index : Int) (axis : String)
+    (h : AxisIndexOk ns.length index) :
+    (insertAxis ns index axis).length = ns.length + 1 ∧
+    (insertAxis ns index axis)[addIndex ns.length index]? = some (some axis) ∧
+    removeAxis (insertAxis ns index axis) index axis = .ok ns := by
+  have hk := addIndex_le ns.length index h
+  rw [insertAxis_eq ns index axis h]
+  refine ⟨insertAt_length ns _ _ hk, insertAt_get ns _ _ hk, ?_⟩
+  rw [← insertAxis_eq ns index axis h]
+  exact removeAxis_insertAxis ns index axis h
+
+/-- on the box's metadata: an annotated Variable (whatever the tuple, `()` too) gets the new tuple and
+everything else is kept; a Variable without a `sharding` annotation stays unannotated -/
+theorem nnxmeta_add_axis_meta (md : Meta) (index : Int) (axis : String) :
+    (∀ ns, Meta.get? md "sharding" = some (.names ns) →
+      nnxMetaAddAxis md index axis = setAssoc md "sharding" (.names (insertAxis ns index axis))) ∧
+    (Meta.get? md "sharding" = none → nnxMetaAddAxis md index axis = md ∧ nnxMetaRemoveAxis md index axis = .ok md) := by
+  refine ⟨fun ns h => by simp [nnxMetaAddAxis, h], fun h => by simp [nnxMetaAddAxis, nnxMetaRemoveAxis, h]⟩
+
+/-- the rank-0 case: inserting at 0 (or at -1) into the empty annotation; a rank-1 `(None,)`; and the
+truthiness test of a careless edit (`if not sharding`) would have skipped exactly the first one -/
+example : AxisIndexOk 0 0 ∧ insertAxis [] 0 "layers" = [some "layers"] ∧ insertAxis [] (-1) "layers" = [some "layers"] ∧
+    insertAxis [none] 0 "layers" = [some "layers", none] ∧
+    nnxMetaAddAxis [("sharding", .names [])] 0 "layers" = [("sharding", .names [some "layers"])] ∧
+    (nnxMetaRemoveAxis [("sharding", .names [some "layers"])] 0 "layers").toOption = some [("sharding", .names [])] ∧
+    nnxMetaAddAxis [("tag", .str "s")] 0 "layers" = [("tag", .str "s")] := by
+  refine ⟨⟨by decide, by decide⟩, by decide, by decide, by decide, by decide, by decide, by decide⟩
 
 end Flax.C18
